@@ -2,7 +2,7 @@
     none exists.  Nodes are (root tree, position); [nm] gives
     str(getattr(node, pathattr, None)).  Only statements. *)
 Require Import AT.Model.Base AT.Model.Rose AT.Model.Nav AT.Model.Resolver AT.Spec.ResolverSpec.
-Require AT.Proofs.ResolverProofs.
+Require AT.Proofs.ResolverProofs AT.Proofs.SplitJoin AT.Model.Render.
 Import AT.Proofs.ResolverProofs.
 
 (** strict mode follows the path component by component exactly as the
@@ -51,14 +51,22 @@ Theorem C07_rel_roundtrip : forall nm ic t c u d, path_ok nm ic t c d ->
 Proof. exact rel_roundtrip. Qed.
 Print Assumptions C07_rel_roundtrip.
 
-(** Kept visible, not proved: the string level of the round trips (splitting
-    the joined text gives the components back unless a name or the separator
-    collides with the path syntax - known finding KF-C07-2 is exactly that
-    collision class).  Decided on every explored (m, n) pair by the
-    correspondence check with the guard [collides]. *)
-Definition C07_split_join_full : Prop :=
-  forall sep parts, sep <> [] -> Forall (fun s => forall k, starts_with sep (skipn k s) = false \/ length s <= k) parts ->
-    parts <> [] -> split sep (fold_right (fun s acc => match acc with [] => s | _ => s ++ sep ++ acc end) [] parts) = parts.
+(** the string level: splitting the joined text at the (non-empty, possibly
+    multi-character) separator gives the components back, provided no
+    occurrence of the separator starts inside a component ([clean]; its failure
+    is exactly the path-syntax collision class of known finding KF-C07-2) *)
+Theorem C07_split_join : forall sep parts, sep <> [] -> parts <> [] -> AT.Proofs.SplitJoin.clean sep parts ->
+  split sep (AT.Model.Render.join sep parts) = parts.
+Proof. exact AT.Proofs.SplitJoin.split_join. Qed.
+Print Assumptions C07_split_join.
+(** hence get(m, absolute path of n) is n, from every start node m *)
+Theorem C07_abs_roundtrip : forall nm ic sep t m pi,
+  sep <> [] -> name_at nm t [] <> [] ->
+  AT.Proofs.SplitJoin.clean sep (name_at nm t [] :: down_names nm t [] pi) ->
+  path_ok nm ic t [] pi ->
+  get nm ic false sep t m (sep ++ AT.Model.Render.join sep (name_at nm t [] :: down_names nm t [] pi)) = Ok (Some pi).
+Proof. exact AT.Proofs.SplitJoin.abs_roundtrip. Qed.
+Print Assumptions C07_abs_roundtrip.
 
 Example C07_example :
   let t := T 0 [T 1 [T 3 []]; T 2 []] in
